@@ -78,10 +78,12 @@ var renderContextPool = sync.Pool{
 // NewRenderContext gets a RenderContext from the pool and initializes it
 func NewRenderContext(env *Environment, context map[string]interface{}, engine *Engine) *RenderContext {
 	ctx := renderContextPool.Get().(*RenderContext)
+	vpool("get", "ctx", ctx, 0)
 
 	// Ensure all maps are initialized (should be from the pool)
 	if ctx.context == nil {
 		ctx.context = contextMapPool.Get().(map[string]interface{})
+		vpool("get", "ctxmap", ctx.context, len(ctx.context))
 	} else {
 		// Clear any existing data
 		for k := range ctx.context {
@@ -91,6 +93,7 @@ func NewRenderContext(env *Environment, context map[string]interface{}, engine *
 
 	if ctx.blocks == nil {
 		ctx.blocks = blocksMapPool.Get().(map[string][]Node)
+		vpool("get", "blockmap", ctx.blocks, len(ctx.blocks))
 	} else {
 		// Clear any existing data
 		for k := range ctx.blocks {
@@ -100,6 +103,7 @@ func NewRenderContext(env *Environment, context map[string]interface{}, engine *
 
 	if ctx.parentBlocks == nil {
 		ctx.parentBlocks = blocksMapPool.Get().(map[string][]Node)
+		vpool("get", "blockmap", ctx.parentBlocks, len(ctx.parentBlocks))
 	} else {
 		// Clear any existing data
 		for k := range ctx.parentBlocks {
@@ -109,6 +113,7 @@ func NewRenderContext(env *Environment, context map[string]interface{}, engine *
 
 	if ctx.macros == nil {
 		ctx.macros = macrosMapPool.Get().(map[string]Node)
+		vpool("get", "macromap", ctx.macros, len(ctx.macros))
 	} else {
 		// Clear any existing data
 		for k := range ctx.macros {
@@ -137,11 +142,13 @@ func NewRenderContext(env *Environment, context map[string]interface{}, engine *
 		}
 	}
 
+	vpool("ready", "ctx", ctx, len(ctx.context)-len(context))
 	return ctx
 }
 
 // Release returns the RenderContext to the pool with proper cleanup
 func (ctx *RenderContext) Release() {
+	vpool("put", "ctx", ctx, 0)
 	// Clear references to large objects to prevent memory leaks
 	ctx.env = nil
 	ctx.engine = nil
@@ -173,6 +180,7 @@ func (ctx *RenderContext) Release() {
 		for k := range contextMap {
 			delete(contextMap, k)
 		}
+		vpool("put", "ctxmap", contextMap, len(contextMap))
 		contextMapPool.Put(contextMap)
 	}
 
@@ -180,6 +188,7 @@ func (ctx *RenderContext) Release() {
 		for k := range blocksMap {
 			delete(blocksMap, k)
 		}
+		vpool("put", "blockmap", blocksMap, len(blocksMap))
 		blocksMapPool.Put(blocksMap)
 	}
 
@@ -187,6 +196,7 @@ func (ctx *RenderContext) Release() {
 		for k := range parentBlocksMap {
 			delete(parentBlocksMap, k)
 		}
+		vpool("put", "blockmap", parentBlocksMap, len(parentBlocksMap))
 		blocksMapPool.Put(parentBlocksMap)
 	}
 
@@ -194,6 +204,7 @@ func (ctx *RenderContext) Release() {
 		for k := range macrosMap {
 			delete(macrosMap, k)
 		}
+		vpool("put", "macromap", macrosMap, len(macrosMap))
 		macrosMapPool.Put(macrosMap)
 	}
 }
@@ -414,6 +425,7 @@ func (ctx *RenderContext) IsSandboxed() bool {
 func (ctx *RenderContext) Clone() *RenderContext {
 	// Get a new context from the pool with empty maps
 	newCtx := renderContextPool.Get().(*RenderContext)
+	vpool("get", "ctx", newCtx, 0)
 
 	// Initialize the context
 	newCtx.env = ctx.env
@@ -435,6 +447,7 @@ func (ctx *RenderContext) Clone() *RenderContext {
 	// Ensure maps are initialized (they should be from the pool already)
 	if newCtx.context == nil {
 		newCtx.context = contextMapPool.Get().(map[string]interface{})
+		vpool("get", "ctxmap", newCtx.context, len(newCtx.context))
 	} else {
 		// Clear any existing data
 		for k := range newCtx.context {
@@ -444,6 +457,7 @@ func (ctx *RenderContext) Clone() *RenderContext {
 
 	if newCtx.blocks == nil {
 		newCtx.blocks = blocksMapPool.Get().(map[string][]Node)
+		vpool("get", "blockmap", newCtx.blocks, len(newCtx.blocks))
 	} else {
 		// Clear any existing data
 		for k := range newCtx.blocks {
@@ -453,6 +467,7 @@ func (ctx *RenderContext) Clone() *RenderContext {
 
 	if newCtx.macros == nil {
 		newCtx.macros = macrosMapPool.Get().(map[string]Node)
+		vpool("get", "macromap", newCtx.macros, len(newCtx.macros))
 	} else {
 		// Clear any existing data
 		for k := range newCtx.macros {
@@ -462,6 +477,7 @@ func (ctx *RenderContext) Clone() *RenderContext {
 
 	if newCtx.parentBlocks == nil {
 		newCtx.parentBlocks = blocksMapPool.Get().(map[string][]Node)
+		vpool("get", "blockmap", newCtx.parentBlocks, len(newCtx.parentBlocks))
 	} else {
 		// Clear any existing data
 		for k := range newCtx.parentBlocks {
@@ -479,6 +495,7 @@ func (ctx *RenderContext) Clone() *RenderContext {
 		newCtx.macros[name] = macro
 	}
 
+	vpool("ready", "ctx", newCtx, len(newCtx.context))
 	return newCtx
 }
 
@@ -537,6 +554,7 @@ func (ctx *RenderContext) GetMacros() map[string]Node {
 func (ctx *RenderContext) InitMacros() {
 	if ctx.macros == nil {
 		ctx.macros = macrosMapPool.Get().(map[string]Node)
+		vpool("get", "macromap", ctx.macros, len(ctx.macros))
 	}
 }
 
@@ -544,6 +562,7 @@ func (ctx *RenderContext) InitMacros() {
 func (ctx *RenderContext) SetMacro(name string, macro Node) {
 	if ctx.macros == nil {
 		ctx.macros = macrosMapPool.Get().(map[string]Node)
+		vpool("get", "macromap", ctx.macros, len(ctx.macros))
 	}
 	ctx.macros[name] = macro
 }
